@@ -429,19 +429,17 @@ def number_to_string(number, significant_digits, number_format_notation="f"):
     elif isinstance(number, only_complex_number):  # type: ignore
         # Case for complex numbers.
         number = number.__class__(
-            "{real}+{imag}j".format(  # type: ignore
-                real=number_to_string(
-                    number=number.real,  # type: ignore
-                    significant_digits=significant_digits,
-                    number_format_notation=number_format_notation
-                ),
-                imag=number_to_string(
-                    number=number.imag,  # type: ignore
-                    significant_digits=significant_digits,
-                    number_format_notation=number_format_notation
-                )
-            )  # type: ignore
-        )
+            float(number_to_string(
+                number=number.real,  # type: ignore
+                significant_digits=significant_digits,
+                number_format_notation=number_format_notation
+            )),
+            float(number_to_string(
+                number=number.imag,  # type: ignore
+                significant_digits=significant_digits,
+                number_format_notation=number_format_notation
+            ))
+        )  # type: ignore
     else:
         number = round(number=number, ndigits=significant_digits)  # type: ignore
 
